@@ -24,7 +24,7 @@ structure SCfg where
 structure SParams where
   codec : Codec
   dzRead : Cenc → List DzCall → DzCall → DzOut
-  dzFuel : Nat
+  dzFuel : BW → Nat
   md5 : Bytes → String
   planOf : Nat → Nat → Plan
 
